@@ -1133,7 +1133,8 @@ def _check_feed(run, repo, world):
              "is read from the current report")
     mod = repo.mod(HID)
     c = world.cls(HID + ".tridonic")
-    fn = c.methods["_handle_read"][1]
+    from .. import astq as _astq
+    fn = _astq.propagate(c.methods["_handle_read"][1])   # `mode = data[0]`
     Q = HID + ".tridonic._handle_read"
     cfg = CFG(fn, may_raise=lambda n: False, name=Q)
     W = forward_worlds(cfg, kill_conds_on_assign, cond_edge_transfer())
